@@ -23,6 +23,7 @@ ENTRIES = [
     (5, 7, ''),                         # same pid as entries 0/1 with an EMPTY name (a later entry wins even when empty)
     (7, 3, 'q'),                        # a THREAD id that is numerically the PROCESS id of entries 0/1/6 (and a pid that is their tid)
     (8, 11, 'Cafe\u0301 A\u030a'),        # a name in decomposed form (base letter + combining mark): stored as it is written
+    (0, 0, ''),                         # an entry of 32 zero bytes is an entry (thread 0, pid 0, no name), not the end of the map
     (9, 12, b'sh\0\xc3\xff\xfe'),          # behind the terminator: the tail of an older, longer name cut inside a character (not UTF-8)
 ]
 CAPTURED = (b'\x8b\xf3\x8f1\x13\xeb\x03\x00ework_BusinessChat-7.0.1-py2.py3\xdeJ\x88\x00\x00\x00\x00\x00'
